@@ -110,6 +110,12 @@ func init() {
 		dt := string(cur.S)
 		return &Val{T: "(" + dt + ".val " + cur.T + ")", S: SInt, Typ: rt}, nil
 	}
+	// time.Since(t): an uninterpreted function of t. Within one call time is treated as not advancing between two
+	// readings of the same stamp (assumption, recorded); time.Now stays an arbitrary value.
+	builtinModels["time.Since"] = func(fc *FnCtx, c *ssa.CallCommon, args []Val, rt types.Type) (*Val, error) {
+		fc.vc.trust("time.Since(t) is a function of t within one call (the clock does not advance between two readings of the same stamp)")
+		return &Val{T: fc.timeSince(args[0]), S: SInt, Typ: rt}, nil
+	}
 	builtinModels["(*sync/atomic.Value).Store"] = func(fc *FnCtx, c *ssa.CallCommon, args []Val, rt types.Type) (*Val, error) {
 		l, err := fc.derefLoc(args[0])
 		if err != nil {
@@ -900,4 +906,10 @@ func (fc *FnCtx) execSelect(x *ssa.Select) error {
 	}
 	fc.env[x] = Val{Typ: x.Type(), Tup: tup}
 	return nil
+}
+
+func (fc *FnCtx) timeSince(t Val) string {
+	fc.vc.declareFun("uf.timeSince", []string{string(t.S)}, "Int")
+	r := "(uf.timeSince " + t.T + ")"
+	return r
 }
